@@ -67,3 +67,27 @@ Proof.
   split; [apply first_report_ok; vm_compute; reflexivity|].
   vm_compute. reflexivity.
 Qed.
+
+(* rounds 2 (channel 7 is added with 3 > f votes) and 6 (the instance retires with 3 > f votes) as byte-level events:
+   the premises of the C06 / C04 wire theorems are met by concrete bytes *)
+Definition w_b1 : list Z := w_enc p1.
+Definition w_b2' : list Z := w_run 2 w_b1 a2.
+Definition w_b6 : list Z := w_run 6 w_b5 a6.
+Definition w_e2 : bevent := {| bv_seq := 2; bv_obs := map w_obs_bytes a2; bv_prev := w_b1; bv_next := w_b2' |}.
+Definition w_e6 : bevent := {| bv_seq := 6; bv_obs := map w_obs_bytes a6; bv_prev := w_b5; bv_next := w_b6 |}.
+Example w_votes :
+  bvalid nv_h w_check nv_cf w_e2 /\
+  o_defs (dec_or_initial nv_cf (bv_prev w_e2)) !! 7 = None /\ o_defs (dec_or_initial nv_cf (bv_next w_e2)) !! 7 = Some nv_def /\
+  bvalid nv_h w_check nv_cf w_e6 /\
+  o_stage (dec_or_initial nv_cf (bv_prev w_e6)) = Production /\ o_stage (dec_or_initial nv_cf (bv_next w_e6)) = Retired /\
+  Forall (bvalid nv_h w_check nv_cf) [w_e5; w_e6] /\ blinked [w_e5; w_e6] /\
+  o_va (dec_or_initial nv_cf (bv_next w_e6)) !! 7 = Some (15 * s + 5).
+Proof.
+  split; [apply bvalidb_ok; vm_compute; reflexivity|].
+  split; [vm_compute; reflexivity|]. split; [vm_compute; reflexivity|].
+  split; [apply bvalidb_ok; vm_compute; reflexivity|].
+  split; [vm_compute; reflexivity|]. split; [vm_compute; reflexivity|].
+  split; [repeat (apply Forall_cons; [apply bvalidb_ok; vm_compute; reflexivity|]); apply Forall_nil|].
+  split; [unfold blinked; split; [reflexivity|exact I]|].
+  vm_compute. reflexivity.
+Qed.
